@@ -36,6 +36,9 @@ def extra(led, tier, seed):
     led.extend(predict_glue.obligations())
     led.extend(kauri_fit.obligations())
     led.extend(rt_obligations.lattice_obligations(seed, tier))
+    led.extend(rt_obligations.ladder_obligations(seed, tier))
+    from contracts import infer_local
+    led.extend(infer_local.native_locality_large(seed, tier))
     led.extend(rt_obligations.int_data_obligations(seed))
     led.extend(rt_obligations.offset_data_obligations(seed))
     led.assume("A1", "A2", "A4", "A5 (discharged for softmax): rows of the installed sklearn softmax are positive and sum to 1 (contracts/external_deps.py, real function on exact reals); assumed: argmax over K columns lies in [0, K); scikit-learn validation accepts finite 2-D numeric data with enough samples",
